@@ -532,11 +532,68 @@ func violateKeyed(r *Report, v Violation) {
 	}
 }
 
+// c10SharedNodes: the Lean model (and cloneTree) treat trees as values; the real trees are pointer structures.
+// On the trees exactly as the parser / the optimizer hand them over (no copy), every node OBJECT must be entered
+// and exited once: a node object reachable through two child slots is visited twice and a replacing visitor is
+// applied twice to its children.
+type c10identity struct {
+	enter, exit map[ast.Node]int
+	order       []ast.Node
+}
+
+func (v *c10identity) Enter(n *ast.Node) {
+	if v.enter[*n] == 0 {
+		v.order = append(v.order, *n)
+	}
+	v.enter[*n]++
+}
+func (v *c10identity) Exit(n *ast.Node) { v.exit[*n]++ }
+
+func c10SharedNodes(c *Ctx) {
+	r := c.R
+	srcs := []string{"a ?: b", "(x + 1) ?: 2", "f(a) ?: g(b)", "a ?: b ?: c", "a ? b : c", "not (a ?: b)", "[a ?: b, c]", "{k: a ?: b}", "all(xs, {# ?: a})",
+		"a.b ?: c", "a[1:2] ?: b", "x in 1..3", "x not in 1..3", "x in [1, 2, 3]", "a matches \"b\"", "1 + 2 + x", "f(1 + 2)", "a?.b?.c", "a ? a : a"}
+	gen, _ := fxSources(c.Rng, 60, 4, false)
+	for _, g := range gen {
+		srcs = append(srcs, g.Src, "("+g.Src+") ?: false")
+	}
+	for _, src := range srcs {
+		tree, err := parser.Parse(src)
+		if err != nil {
+			continue
+		}
+		for pass, label := range []string{"parsed", "optimized"} {
+			if pass == 1 {
+				if optimizer.Optimize(&tree.Node, nil) != nil {
+					break
+				}
+			}
+			v := &c10identity{enter: map[ast.Node]int{}, exit: map[ast.Node]int{}}
+			ast.Walk(&tree.Node, v)
+			r.Case("identity|"+label+"|"+src, true)
+			r.Count("identity:"+label, 1)
+			for _, n := range v.order {
+				if v.enter[n] != 1 || v.exit[n] != 1 {
+					key := "c10:node-object-visited-twice:" + label
+					if strings.Contains(src, "?:") {
+						key = "c10:node-object-visited-twice:short-conditional" // a ?: b shares the node of a between Cond and Exp1
+					}
+					r.Violate(Violation{What: "a node object is reachable through two child positions of the tree the " + label[:len(label)-1] + "r produced and is entered/exited more than once",
+						Key: key, Input: map[string]string{"source": src, "node": fmt.Sprintf("%T %v", n, n.Location())},
+						Expect: "entered 1 exited 1", Got: fmt.Sprintf("entered %d exited %d", v.enter[n], v.exit[n])})
+					break
+				}
+			}
+		}
+	}
+}
+
 func runC10(c *Ctx) {
 	r := c.R
 	loadReplayKey(c)
 	c10CompilePatch(c)
 	c10Recheck(c)
+	c10SharedNodes(c)
 	r.Rule = "trees built as Go ast values: every chain slot/slot/kind to depth 3 over all 22 node kinds and all 28 child positions (incl. nil From/To, empty lists), every tree of depth<=3 over {Identifier, Binary, Slice, Array}, random trees to depth 6; type-checked and optimized trees (ConstantNode, range and membership rewrites); parsed sources: 41 contexts x 11 leaves, all context pairs, random compositions; each walked by the real ast.Walk with an idle and with replacing visitors (Enter/Exit x assignment/ast.Patch, at every position of small trees), compared with the Lean model (table from ast/visitor.go) and with the reflection oracle; expr.Compile with expr.Patch replacing an identifier in every context; replacements changing the static type at 15 type-directed spots x 8 target types and the root under AsBool, compared with the written-out patched expression; non-trivial = tree has >= 2 nodes; distinct by (tree, visitor, position)"
 
 	var cases []c10case
